@@ -614,6 +614,23 @@ impl FileStateMachine {
             operations.len()
         );
 
+        // TTLs carried by the WAL must survive its clearing below. During construction the
+        // lease is not injected yet (NodeBuilder does that after `new()`), so fold them into
+        // a scratch lease seeded from ttl_state.bin and write that file back afterwards;
+        // `start()` reloads it into the injected lease.
+        let replay_lease: Option<Arc<TtlLease>> = match self.lease {
+            Some(ref lease) => Some(lease.clone()),
+            None => {
+                let scratch = Arc::new(TtlLease::new(Default::default()));
+                let ttl_path = self.data_dir.join("ttl_state.bin");
+                if ttl_path.exists() {
+                    let ttl_data = tokio::fs::read(&ttl_path).await?;
+                    scratch.reload(&ttl_data)?;
+                }
+                Some(scratch)
+            }
+        };
+
         // Apply all collected operations with a single lock acquisition
         let mut applied_count = 0;
         let mut skipped_expired = 0;
@@ -640,7 +657,7 @@ impl FileStateMachine {
                                 // so an older value restored earlier must not come back.
                                 debug!("Skipped expired key during WAL replay: key={:?}", key);
                                 data.remove(&key);
-                                if let Some(ref lease) = self.lease {
+                                if let Some(ref lease) = replay_lease {
                                     lease.unregister(&key);
                                 }
                                 skipped_expired += 1;
@@ -651,7 +668,7 @@ impl FileStateMachine {
 
                             // Restore TTL from WAL (if lease configured and has expiration)
                             if let Some(secs) = expire_at_secs {
-                                if let Some(ref lease) = self.lease {
+                                if let Some(ref lease) = replay_lease {
                                     let expire_at = std::time::UNIX_EPOCH
                                         + std::time::Duration::from_secs(secs);
                                     let remaining = expire_at
@@ -668,7 +685,7 @@ impl FileStateMachine {
                                     }
                                 }
                             } else {
-                                if let Some(ref lease) = self.lease {
+                                if let Some(ref lease) = replay_lease {
                                     lease.unregister(&key);
                                 }
                                 debug!("Replayed INSERT: key={:?}", key);
@@ -681,7 +698,7 @@ impl FileStateMachine {
                     }
                     WalOpCode::Delete => {
                         data.remove(&key);
-                        if let Some(ref lease) = self.lease {
+                        if let Some(ref lease) = replay_lease {
                             lease.unregister(&key);
                         }
                         applied_count += 1;
@@ -719,6 +736,13 @@ impl FileStateMachine {
         if let Some(log_id) = highest_replayed {
             if log_id.index > self.last_applied_index.load(Ordering::SeqCst) {
                 self.update_last_applied(log_id);
+            }
+        }
+
+        if self.lease.is_none() {
+            if let Some(ref scratch) = replay_lease {
+                let ttl_path = self.data_dir.join("ttl_state.bin");
+                tokio::fs::write(&ttl_path, scratch.to_snapshot()).await?;
             }
         }
 
@@ -892,6 +916,11 @@ impl FileStateMachine {
     pub(crate) async fn checkpoint(&self) -> Result<(), Error> {
         self.persist_data_async().await?;
         self.persist_metadata_async().await?;
+        // The WAL is the only durable copy of TTLs registered since the last graceful stop.
+        if let Some(ref lease) = self.lease {
+            let ttl_path = self.data_dir.join("ttl_state.bin");
+            tokio::fs::write(&ttl_path, lease.to_snapshot()).await?;
+        }
         self.clear_wal_async().await?;
 
         self.wal_entries_since_checkpoint.store(0, Ordering::Relaxed);
